@@ -110,6 +110,11 @@ func TestC15Race(t *testing.T) {
 						if o.Error != nil {
 							atomic.AddInt32(&lookedAgain, int32(len(o.Error.Error())&1)+1)
 						}
+						// a channel value the application was given stays what it was: its description is read again
+						// long after the channel has ended (a log line, a map key)
+						atomic.AddInt32(&lookedAgain, int32(len(o.Channel.String())&1)+1)
+					case *gomavlib.EventChannelOpen:
+						atomic.AddInt32(&lookedAgain, int32(len(o.Channel.String())&1)+1)
 					case *gomavlib.EventStreamRequested:
 						atomic.AddInt32(&lookedAgain, int32(o.SystemID&1)+1)
 					case *gomavlib.EventFrame:
@@ -129,7 +134,10 @@ func TestC15Race(t *testing.T) {
 					time.Sleep(500 * time.Microsecond) // events stay pending: channels linger in every intermediate state
 				}
 				switch e := ev.(type) {
+				case *gomavlib.EventChannelClose:
+					_ = e.Channel.String()
 				case *gomavlib.EventChannelOpen:
+					_ = e.Channel.String()
 					chMu.Lock()
 					chans = append(chans, e.Channel)
 					chMu.Unlock()
